@@ -12,7 +12,9 @@ RULE = ("well-typed programs built by construction (type-directed chunks over st
         "IF_CONS with unified branches, counted LOOP/LOOP_LEFT, ITER/MAP over list/set/map, LAMBDA/EXEC/APPLY, PAIR n/"
         "UNPAIR n/GET n/UPDATE n, option/or, sets/maps, CONCAT/SLICE/SIZE, PACK/UNPACK, arithmetic, COMPARE, hashes, "
         "environment instructions, tickets, LAMBDA_REC, CAST/RENAME, FAILWITH; <=8 chunks quick / <=20 thorough, nesting <=2/3; plus a "
-        "focused tier of 1-3 chunk programs whose first chunk kind is drawn uniformly from all 25 kinds) x 0..3 input "
+        "focused tier of 1-3 chunk programs whose first chunk kind is drawn uniformly from all 25 kinds; every hash instruction on "
+        "every message length 0..300 (thorough ..1200) exhaustively; a session tier runs programs as REPL text through "
+        "Interpreter.execute right after 1-2 cells that failed inside DIP / ITER / IF / lambda bodies) x 0..3 input "
         "values x environments (amount, balance, sender, source, now, level, chain id, self address). Oracle: "
         "differential against an independent reference interpreter validated on Octez' opcode vectors: same final "
         "stack (types and values slot by slot) or the same kind of failure with the same FAILWITH payload. "
@@ -45,13 +47,17 @@ def classify(v):
 
 
 @st.composite
-def cases(draw, size, depth, profile=None, focused=False):
+def cases(draw, size, depth, profile=None, focused=False, session=False):
     profile = profile or draw(st.sampled_from(["core", "core", "core", "combs", "collections"]))
     force = None
     if focused:  # short programs that start with a prescribed chunk kind: every instruction family gets its share of cases
         force = [draw(st.sampled_from(gp.ALL_KINDS))] + ([draw(st.sampled_from(["usetop", "stack", "compare"]))] if draw(st.booleans()) else [])
         size = (len(force), len(force) + 1)
     prog = draw(gp.programs(size=size, depth=depth, profile=profile, force=force))
+    if session:  # the program is run as REPL text on an Interpreter that has just seen 1..2 failing cells
+        sess = draw(st.lists(st.sampled_from(xc.FAILING_CELLS), min_size=1, max_size=2))
+        return {"inputs": prog["inputs"], "code": prog["code"], "env": xc.env_to_json(draw(gp.env_strategy())),
+                "chunks": prog["chunks"], "session": sess}
     return {"inputs": prog["inputs"], "code": prog["code"], "env": xc.env_to_json(draw(gp.env_strategy())),
             "chunks": prog["chunks"]}
 
@@ -66,10 +72,27 @@ def _prop(case, stats):
     if kind == "budget":
         stats.extra["reference_budget_exhausted"] += 1
         return
+    if kind.startswith("session-skip"):
+        stats.extra[kind] += 1
+        return
     nt = bool(names - SHUFFLE) and (kind != "ok" or bool(case["inputs"]))
-    stats.case(case, nt, "result:" + kind, sample={"inputs": case["inputs"][:2], "code": xc._short(case["code"])[:400]})
+    stats.case(case, nt, ("session:" if case.get("session") else "result:") + kind, sample={"inputs": case["inputs"][:2], "code": xc._short(case["code"])[:400]})
     for n in names:
         stats.extra["instr:" + n] += 1
+
+
+def _hash_case(name, n):
+    data = bytes((i * 131 + n * 7 + 3) % 256 for i in range(n))
+    return {"inputs": [{"t": {"prim": "bytes"}, "v": {"bytes": data.hex()}}], "code": [{"prim": name}],
+            "env": xc.env_to_json({"amount": 0, "balance": 0, "sender": (b"\x00\x00" + b"\x11" * 20, ""), "source": (b"\x00\x00" + b"\x11" * 20, ""),
+                                   "now": 0, "level": 1, "chain_id": b"\x00" * 4, "self_address": (b"\x01" + b"\x22" * 20 + b"\x00", ""),
+                                   "min_block_time": 1}), "chunks": ["hash-length"]}
+
+
+def _prop_hash(case, stats):
+    oracle(case)
+    n = len(case["inputs"][0]["v"]["bytes"]) // 2
+    stats.case([case["code"], n], n >= 55, "hash-length:" + case["code"][0]["prim"], sample={"hash": case["code"][0]["prim"], "length": n})
 
 
 def run(h):
@@ -79,6 +102,11 @@ def run(h):
     size, depth = ((1, 8), 2) if h.quick else ((1, 20), 3)
     h.run_given(lambda: cases(size, depth), _prop, h.n(60, 6000), shards=16, classify=classify)
     h.run_given(lambda: cases(size, depth, focused=True), _prop, h.n(120, 6000), shards=16, classify=classify, name="focused")
+    h.run_given(lambda: cases(size, depth, focused=True, session=True), _prop, h.n(40, 3000), shards=16, classify=classify, name="session")
+    # every message length up to 300 (thorough 1200) bytes for every hash instruction: padding depends on the length only
+    top = 300 if h.quick else 1200
+    h.run_enum([_hash_case(name, n) for name in sorted(ri.HASHES) for n in range(top + 1)], _prop_hash, shards=16)
+    h.coverage_extra["exhaustive_subdomain"] = "message lengths 0..%d for BLAKE2B, SHA256, SHA512, SHA3, KECCAK" % top
     ill = h.stats.extra.get("generator_illtyped", 0)
     h.coverage_extra["instruction_histogram"] = {k[6:]: v for k, v in sorted(h.stats.extra.items()) if k.startswith("instr:")}
     for k in [k for k in h.stats.extra if k.startswith("instr:")]:
